@@ -196,7 +196,9 @@ def main():
     to = [(f, t) for f, t in results if t[1] == "TIMEOUT"]
     for (f, t) in to[:8]:       # (a reader that hangs on everything would otherwise cost a minute per file)
         label, fmt, data, ext = f
-        op = ("TRYBASIS h0 f%s" % ext) if fmt == "BAS" else ("TRYREAD f%s %s 60" % (ext, fmt))
+        # read (and write) only: a returned problem that merely takes long to SOLVE is no reader fault (numbers with
+        # thousands of digits make the exact solver slow, more so on a loaded machine)
+        op = ("TRYBASIS h0 f%s" % ext) if fmt == "BAS" else ("TRYREAD f%s %s 60 nosolve" % (ext, fmt))
         rc, out, err = run_io("%s\nPUT f%s %s\n%s\n" % (load_block(0, BAS_PROBLEM), ext, enc(data), op), asan=True, timeout=200)
         r = [l.split() for l in out.splitlines() if l.startswith("TRYREAD") or l.startswith("TRYBASIS")]
         t[:] = r[0] if r else ["TRYREAD", "TIMEOUT"]
